@@ -13,10 +13,13 @@ from droop.values.rational import Rational
 LIM = 2 ** 31 - 1
 
 
-def setup(cls, p=0, g=0, d=None):
+def setup(cls, p=0, g=0, d=None, as_integer=None):
     o = dict(arithmetic=cls)
     if cls in ('fixed', 'guarded'):
         o['precision'] = p
+    if as_integer is not None:
+        # `integer' is the zero-place case whatever precision accompanies it
+        o = dict(arithmetic='integer', precision=as_integer)
     if cls == 'guarded':
         o['guard'] = g
     if d is not None:
@@ -57,9 +60,9 @@ def fits(*xs):
     return all(abs(x) < LIM for x in xs)
 
 
-def scaled_calls(cls, p, g, d, operands, rng, ints, npairs=300):
+def scaled_calls(cls, p, g, d, operands, rng, ints, npairs=300, as_integer=None):
     "calls on Fixed / Guarded with the given scaled operand values"
-    V = setup(cls, p, g, d)
+    V = setup(cls, p, g, d, as_integer=as_integer)
     S = 10 ** (p + g)
     geps = max(10 ** g // 2, 1) if cls == 'guarded' else 1
     base = dict(cls=cls, p=p, g=g, d=-1 if d is None else d, dEff=d_eff(cls, p, g, d), S=S, geps=geps, rnd='op', a=0, b=0, c=0, r=0, oor=False,
@@ -360,6 +363,8 @@ def all_calls(rng, tier):
                     extra.add(k * U + dl)
             ops = sorted(set(ops) | set(x for x in extra if abs(x) <= 45000))
         calls += scaled_calls(cls, p, g, d, ops, rng, ints, npairs=(220 if tier == 'quick' else 1500))
+    # arithmetic=integer accompanied by a precision option: still zero places
+    calls += scaled_calls('fixed', 0, 0, None, operand_grid(1, 1, rng, 8), rng, ints, npairs=120, as_integer=3)
     fr = [Fraction(n, dn) for n in (0, 1, -1, 2, 3, -5, 7, 22, -31, 100) for dn in (1, 2, 3, 7, 10, 13)]
     for d in ((0, 3, 5) if tier == 'quick' else (0, 1, 3, 5, 6)):
         calls += rational_calls(d, fr, rng, tier)
